@@ -204,18 +204,22 @@ pub struct TableSpec {
     pub regular: Vec<(String, String)>,
 }
 
-#[derive(Clone, Debug)]
+#[derive(Clone, Debug, Default)]
 pub struct KeyspaceSpec {
     pub name: String,
     /// e.g. [("class","org.apache.cassandra.locator.NetworkTopologyStrategy"),("dc1","2")]
     pub replication: Vec<(String, String)>,
     pub tables: Vec<TableSpec>,
+    /// `Some(n)`: a tablet-based keyspace (`system_schema.scylla_keyspaces.initial_tablets`)
+    pub initial_tablets: Option<i32>,
 }
 
 #[derive(Clone, Debug, Default)]
 pub struct Topology {
     pub nodes: Vec<NodeSpec>,
     pub keyspaces: Vec<KeyspaceSpec>,
+    /// SUPPORTED advertises TABLETS_ROUTING_V1 (tablet feedback in custom payloads is then legal)
+    pub tablets_ext: bool,
 }
 
 pub fn host_id_of(i: usize) -> [u8; 16] {
@@ -288,6 +292,8 @@ pub enum Act {
     Respond(u8, Vec<u8>),
     /// response frame on an arbitrary stream
     RespondOn(i16, u8, Vec<u8>),
+    /// response frame with header flags (0x04 = the body starts with a custom payload, see `with_custom_payload`)
+    RespondFlags(u8, u8, Vec<u8>),
     /// raw bytes
     Raw(Vec<u8>),
     Delay(Duration),
@@ -750,6 +756,13 @@ async fn serve_conn(
                         return;
                     }
                 }
+                Act::RespondFlags(fl, op, b) => {
+                    let mut f = frame(stream, op, &b);
+                    f[1] = fl;
+                    if sock.write_all(&f).await.is_err() {
+                        return;
+                    }
+                }
                 Act::Raw(b) => {
                     if sock.write_all(&b).await.is_err() {
                         return;
@@ -822,7 +835,16 @@ fn internal_response(
     match parsed {
         Parsed::Options => {
             let aware = matches!(st.topo.nodes[node].shards, ShardMode::ByPort(..)).then_some(port);
-            Some(vec![Act::Respond(RESP_SUPPORTED, body_supported_ext(false, shard, aware))])
+            let mut body = body_supported_ext(false, shard, aware);
+            if st.topo.tablets_ext {
+                // one more entry of the string multimap: bump the count, append key + empty value list entry
+                let n = u16::from_be_bytes([body[0], body[1]]) + 1;
+                body[..2].copy_from_slice(&n.to_be_bytes());
+                w_string(&mut body, "TABLETS_ROUTING_V1");
+                w_short(&mut body, 1);
+                w_string(&mut body, "");
+            }
+            Some(vec![Act::Respond(RESP_SUPPORTED, body)])
         }
         Parsed::Startup(_) => Some(vec![Act::Respond(RESP_READY, vec![])]),
         Parsed::Register(_) => Some(vec![Act::Respond(RESP_READY, vec![])]),
@@ -997,7 +1019,8 @@ fn system_rows(st: &State, node: usize, table_idx: usize, wants_version: bool) -
         }
         "system_schema.scylla_keyspaces" => {
             let specs = Specs::new(ks, tb, &[("keyspace_name", t_text()), ("initial_tablets", CqlT::Native(T_INT))]);
-            (specs, vec![])
+            let rows = st.topo.keyspaces.iter().filter_map(|k| k.initial_tablets.map(|n| vec![c_text(&k.name), c_int(n)])).collect();
+            (specs, rows)
         }
         _ => return None,
     })
@@ -1006,6 +1029,36 @@ fn system_rows(st: &State, node: usize, table_idx: usize, wants_version: bool) -
 // ---------------------------------------------------------------------------------------------------------------
 // small helpers for handlers
 // ---------------------------------------------------------------------------------------------------------------
+
+/// Prefixes a response body with a custom payload (bytes map); send it with `Act::RespondFlags(0x04, ..)`.
+pub fn with_custom_payload(entries: &[(&str, Vec<u8>)], body: &[u8]) -> Vec<u8> {
+    let mut b = Vec::new();
+    w_short(&mut b, entries.len() as u16);
+    for (k, v) in entries {
+        w_string(&mut b, k);
+        w_bytes(&mut b, Some(v));
+    }
+    b.extend_from_slice(body);
+    b
+}
+
+/// The value of the `tablets-routing-v1` payload entry: tuple<bigint, bigint, list<tuple<uuid, int>>> =
+/// (first token, EXCLUSIVE; last token, inclusive; replicas (host id, shard)).
+pub fn tablet_payload(first_exclusive: i64, last: i64, replicas: &[([u8; 16], i32)]) -> Vec<u8> {
+    let mut b = Vec::new();
+    w_bytes(&mut b, Some(&first_exclusive.to_be_bytes()));
+    w_bytes(&mut b, Some(&last.to_be_bytes()));
+    let mut l = Vec::new();
+    w_int(&mut l, replicas.len() as i32);
+    for (h, s) in replicas {
+        let mut t = Vec::new();
+        w_bytes(&mut t, Some(h));
+        w_bytes(&mut t, Some(&s.to_be_bytes()));
+        w_bytes(&mut l, Some(&t));
+    }
+    w_bytes(&mut b, Some(&l));
+    b
+}
 
 pub fn act_void() -> Act {
     Act::Respond(RESP_RESULT, body_void())
